@@ -198,6 +198,7 @@ func RunCheck(ctx *Ctx, prepare func(*Ctx) (*Prepared, error), level string) int
 		qTotal, qSat, qUnsat, qUnknown, qErr                                  int
 		solverTime, solverMax                                                 time.Duration
 		inconFuncs                                                            []string
+		skippedJobs                                                           = map[string]bool{}
 		harnessesRun                                                          int
 		loadErrors                                                            = map[string][]string{}
 		initWarn                                                              = map[string]bool{}
@@ -213,6 +214,7 @@ func RunCheck(ctx *Ctx, prepare func(*Ctx) (*Prepared, error), level string) int
 			continue
 		}
 		if r.Skipped {
+			skippedJobs[r.Job] = true
 			incon++
 			inconReasons["job-not-run-overall-time-budget"]++
 			inconFuncs = append(inconFuncs, "job not run (overall time budget): "+r.Job)
@@ -324,6 +326,9 @@ func RunCheck(ctx *Ctx, prepare func(*Ctx) (*Prepared, error), level string) int
 	for jn, ids := range prep.ExpectReach {
 		if ctx.Only != "" && !strings.Contains(jn, ctx.Only) {
 			continue
+		}
+		if skippedJobs[jn] {
+			continue // not run (overall time budget): already reported as undecided
 		}
 		for _, id := range ids {
 			if assertIDs["reach:"+id] == 0 {
